@@ -1,4 +1,13 @@
+import gfapy
+
 class ToGFA2:
+
+  def _mark_if_last(self, pos, field):
+    """The position, as LastPos if it is the last position of the segment."""
+    line = getattr(self, field)
+    if isinstance(line, gfapy.Line) and line.length == pos:
+      return gfapy.LastPos(pos)
+    return pos
 
   @property
   def from_coords(self):
@@ -23,14 +32,16 @@ class ToGFA2:
       from_l = self._lastpos_of("from_segment")
       return [from_l - self.overlap.length_on_reference(), from_l]
     else:
-      return [0, self.overlap.length_on_reference()]
+      return [0, self._mark_if_last(self.overlap.length_on_reference(),
+                                    "from_segment")]
 
   @property
   def to_coords(self):
     """GFA2 positions of the alignment on the **to** segment."""
     self._check_overlap()
     if self.to_orient == "+":
-      return [0, self.overlap.length_on_query()]
+      return [0, self._mark_if_last(self.overlap.length_on_query(),
+                                    "to_segment")]
     else:
       to_l = self._lastpos_of("to_segment")
       return [to_l - self.overlap.length_on_query(), to_l]
